@@ -36,6 +36,8 @@ func c09Gen(r *rand.Rand, tier string) []spec.Case {
 		add("mux", "matched-then-dial-again-held:"+s)
 		add("mux", "matched-then-pair-again-held:"+s)
 		add("grpc", "staggered-dials-then-accept:"+s)
+		add("grpc", "dial-burst-noaccept:"+s)
+		add("mux", "dial-burst-noaccept:"+s)
 		add("grpc", "accept-twice:"+s)
 		add("grpc", "dial-timeout-then-accept-twice:"+s)
 		add("grpcmux", "accept-twice:"+s)
@@ -133,6 +135,12 @@ func c09Judge(c spec.Case, evs []spec.Event, d *Death) CaseResult {
 		case "raw-truncated-headers":
 			for _, e := range s.Errs {
 				viol("broker-blocked-by-truncated-headers", fmt.Sprintf("step %s: %s", s.Step, e))
+			}
+		case "dial-burst-noaccept":
+			for _, e := range s.Errs {
+				if strings.HasPrefix(e, "burst-ok: ") && e != "burst-ok: 0" {
+					viol("unmatched-dial-succeeded", fmt.Sprintf("step %s: dials with no accept succeeded (%s of 160)", s.Step, strings.TrimPrefix(e, "burst-ok: ")))
+				}
 			}
 		case "dial-noaccept", "dial-twice":
 			for _, e := range s.Errs {
@@ -257,7 +265,7 @@ func init() {
 		ID: "C09", Level: "exploration", Race: true, TestName: "TestC09",
 		Gen: c09Gen, Batch: 64, Children: 4, PerCase: 3 * time.Second, Base: 240 * time.Second,
 		Judge: c09Judge, Finish: c09Finish,
-		Rule: "cases = histories over {dial-noaccept, accept-nodial, dial-twice (same id), staggered-dials-then-accept (second dial half-way through the first one's window, then an unmatched accept after the first expired), dial-timeout-then-accept (late accept), accept-timeout-then-dial (late dial), accept-at-expiry (Accept lined up with the expiry of a parked connection through hook points), matched-then-dial-again-held / matched-then-pair-again-held (the id of a completed pair is dialled, or accepted and dialled, again while the goroutine that cleans up after that pair is held at hook point mux.timeoutWait.accepted), raw-truncated-headers (kind muxraw: a hand-rolled yamux peer of an in-process RPCServer opens n streams and closes each after 0..3 header bytes, with genuine Dispense+dial pairs in between and after)} x acting side, on MuxBroker, GRPCBroker and multiplexed GRPCBroker, each on its own in-process connection pair (both ends real go-plugin code), followed by a matched pair on a fresh id in each direction and a close; every single step per kind and side plus random histories of length 2-4. Class = kind + multiset of steps",
+		Rule: "cases = histories over {dial-noaccept, accept-nodial, dial-twice (same id), dial-burst-noaccept (160 dials at once to distinct ids nobody accepts), staggered-dials-then-accept (second dial half-way through the first one's window, then an unmatched accept after the first expired), dial-timeout-then-accept (late accept), accept-timeout-then-dial (late dial), accept-at-expiry (Accept lined up with the expiry of a parked connection through hook points), matched-then-dial-again-held / matched-then-pair-again-held (the id of a completed pair is dialled, or accepted and dialled, again while the goroutine that cleans up after that pair is held at hook point mux.timeoutWait.accepted), raw-truncated-headers (kind muxraw: a hand-rolled yamux peer of an in-process RPCServer opens n streams and closes each after 0..3 header bytes, with genuine Dispense+dial pairs in between and after)} x acting side, on MuxBroker, GRPCBroker and multiplexed GRPCBroker, each on its own in-process connection pair (both ends real go-plugin code), followed by a matched pair on a fresh id in each direction and a close; every single step per kind and side plus random histories of length 2-4. Class = kind + multiset of steps",
 		Assumptions: []string{
 			"nominal bound 5 s; a call counts as hung only after 40 s (2 x H, H = 20 s) for steps and 20 s for fresh pairs",
 			"for GRPCBroker an unmatched accept is an AcceptAndServe that is stopped through its server after 300 ms (Accept itself returns a listener at once)",
